@@ -712,6 +712,9 @@ class Engine:
                     return self.sym_ptr_hook(self, ptr.obj, path[:i], p, v)
                 elems = [self._load_rest(e, path[i + 1:], ew) for e in v]
                 return mux(p, elems, ew)
+            if not isinstance(v, (list, tuple)):
+                # the code looks inside a value the harness keeps abstract (e.g. the coordinates of an abstract point)
+                raise Unsupported('load of a component of an abstract value (%s)' % type(v).__name__)
             v = v[p]
         return self.copyval(v)
 
